@@ -1,11 +1,11 @@
 SPECIFICATION Spec
 CONSTANTS
-  NObj = 5
+  NObj = 4
   NTab = 1
-  NSid = 7
+  NSid = 6
   Devs = {}
   Acts = {"NewVec", "Copy", "Drop", "Write", "NewTable", "SetAttr", "ColView", "DropTable", "ReadFp", "ReadFpT"}
-  Lens = {1, 2}
+  Lens = {0, 1, 2}
   Vals = {0, 1}
   NameSet = {"-"}
   MaxDepth = 6
